@@ -120,7 +120,10 @@ def concat_chars(tokens):
             else:
                 out.append({"type": "Characters*", "data": t["data"]})
         elif t["type"] in ("StartTag", "EmptyTag"):
-            out.append({"type": t["type"], "name": t["name"], "namespace": t["namespace"], "data": list(t["data"].items())})
+            # attribute keys in Clark notation, as in C04: an ElementTree cannot tell the plain attribute '{x}y' from attribute y in
+            # namespace x (it is the representation's limit, the same tree to every observer of an etree)
+            out.append({"type": t["type"], "name": t["name"], "namespace": t["namespace"],
+                        "data": [(("{%s}%s" % k) if k[0] else k[1], v) for k, v in t["data"].items()]})
         elif t["type"] == "Doctype":
             # a doctype name can never be the empty string: "" and None both mean "missing" (minidom stores None)
             # identifiers are compared as they are: a present-but-empty identifier ("") is not a missing one (None)
